@@ -7,6 +7,16 @@ def indent(level):
     return '  ' * level
 
 
+def binary_operation(op, left, right):
+    # `a IS /* comment */ NOT b`: the two words did not lex as one IS_NOT token, IS and NOT arrive as two tokens.
+    # An unparenthesised NOT directly behind IS is still the IS NOT operator (it was parsed as `a IS (NOT b)`)
+    from mindsdb_sql.parser.ast.select.operation import BinaryOperation, UnaryOperation
+
+    if op.upper() == 'IS' and isinstance(right, UnaryOperation) and right.op.upper() == 'NOT' and not right.parentheses:
+        return BinaryOperation(op=f'{op} {right.op}', args=(left, right.args[0]))
+    return BinaryOperation(op=op, args=(left, right))
+
+
 def ensure_select_keyword_order(select, operation):
     op_to_attr = {
         'FROM': select.from_table,
